@@ -235,7 +235,9 @@ def run_w2(res, task):
         plans = [['u'] * nlines, ['d'] * nlines, dev[(idx * 7 + seed) % len(dev)]]
         combos = []
         for pi, plan in enumerate(plans):
-            for capname, caps in (('u4', 4), ('u16', 16), ('alt', [4 if (i + idx) % 2 else 8 for i in range(nlines)] + [4, 4, 4])):
+            nio = len(b.circuit.s_nodes)
+            for capname, caps in (('u4', 4), ('u16', 16), ('alt', [4 if (i + idx) % 2 else 8 for i in range(nlines)] + [4, 4, 4]),
+                                  ('low4', [4 if i < nio else 16 for i in range(nlines)] + [4, 4, 4])):      # small capacities exactly on the lines whose index is a port/state position
                 combos.append((plan, capname, caps))
         for ci, (plan, capname, caps) in enumerate(combos):
             if tier == 'quick' and ci % 3 != (idx + seed) % 3: continue
